@@ -248,6 +248,50 @@ def respell(rng, m, t, keep_rep=0.5):
     return tp_from_inst(m, inst(m, t), rep, tzh, tzm, use24=rng.random() < 0.3)
 
 
+EDGE_YEARS = [0, 1, -1, 2, 4, -4, 5, 100, -100, 400, -400, 1583, 1600, 1900, 1970, 1999, 2000, 2001, 2004, 2005,
+              2020, 2021, 2100, 2400, 9999, 10000, -9999]
+
+
+def gen_year_edge_tp(rng, m, year=None):
+    """A valid point within two days of a year boundary (biased to the second either side of it, to the last /
+    first days, to local midnights), in a random representation and offset; distinguished years (0, +-1, leap and
+    century years, 1970, the four-digit limits) preferred."""
+    y = year if year is not None else (rng.choice(EDGE_YEARS) if rng.random() < 0.8 else rng.randint(-3000, 12000))
+    start = 86400 * oracle.dby(m, y)          # instant of y-01-01T00:00:00Z
+    r = rng.random()
+    if r < 0.45:
+        delta = rng.choice([0, -1, 1, -60, 59, -3600, 3600, -86400, 86400, -86399, 86399, -86401, 43200, -43200])
+    elif r < 0.7:
+        delta = rng.choice([-1, 0, 1, 2, -2]) * 86400 + rng.choice([0, 0, 1, -1, 3599, 82800])
+    else:
+        delta = rng.randint(-2 * 86400, 2 * 86400)
+    tzh, tzm = gens.offset(rng)
+    local = rng.random() < 0.5      # the boundary in local time rather than in UTC
+    inst_ = start + delta - ((3600 * tzh + 60 * tzm) if local else 0)
+    return tp_from_inst(m, inst_, rng.choice("cow"), tzh, tzm, use24=rng.random() < 0.3)
+
+
+def gen_year_edge_pair(rng, m):
+    """Two points near (possibly different) year boundaries, and the exact duration (days, h, min, s) from the first
+    to the second."""
+    p = gen_year_edge_tp(rng, m)
+    y2 = p[1] + rng.choice([0, 0, 1, -1, 1, -1, 2, -2, 4, -4, 100, -400, rng.randint(-30, 30)])
+    q = gen_year_edge_tp(rng, m, year=y2)
+    secs = inst(m, q) - inst(m, p)
+    sg = 1 if secs >= 0 else -1
+    a = abs(secs)
+    r = rng.random()
+    if r < 0.4:
+        d = ("U", 0, 0, sg * (a // 86400), 0, 0, sg * (a % 86400))
+    elif r < 0.7:
+        d = ("U", 0, 0, sg * (a // 86400), sg * (a % 86400 // 3600), sg * (a % 3600 // 60), sg * (a % 60))
+    elif r < 0.85:
+        d = ("U", 0, 0, 0, sg * (a // 3600), 0, sg * (a % 3600))
+    else:
+        d = ("U", 0, 0, 0, 0, 0, secs)
+    return p, q, d
+
+
 def tp_sibling(pos, ymin=-9000, ymax=9000, keep_rep=0.5):
     """An `Op.sibling` that respells the time point at argument position `pos` (same instant, another offset
     and possibly representation), for ops whose first argument is the mode."""
